@@ -15,7 +15,7 @@ class C14(CoordMixin, Prop):
     id = "C14"
     title = "Coordinated operations release every resource on every exit path"
     fixed_prefix = 1
-    extractors = ["py2lean-coord", "exec-probe"]
+    extractors = ["py2lean-coord", "exec-probe", "watchdog-probe"]
     quick_budget = 2500
     thorough_budget = 40000
     all_branches = ["cell:ok", "cell:blocked", "cell:post-raise", "x:blocked", "x:unknown", "x:reentrant", "x:preempted", "x:cp0-fail", "x:cp1-fail", "x:cp2-fail",
@@ -40,10 +40,12 @@ class C14(CoordMixin, Prop):
         self._attr = {}
 
     def extract(self, ctx):
-        from ..extract import py2lean_coord, exec_probe
+        from ..extract import py2lean_coord, exec_probe, watchdog_probe
         out = py2lean_coord.run(core.REPO, core.LEAN, core.write_if_changed)
         # the real execute_operation evaluated on the complete domain of callback outcomes -> Gen/CoordExecProbe.lean
-        return out + exec_probe.run(self, core.LEAN, core.write_if_changed)
+        out += exec_probe.run(self, core.LEAN, core.write_if_changed)
+        # the real Watchdog.check evaluated on a complete grid of phases / flags / limits / boundaries -> Gen/CoordWatchdogProbe.lean
+        return out + watchdog_probe.run(self, core.LEAN, core.write_if_changed)
 
     # --- generation ---------------------------------------------------------------------------------------
     def _setup_lines(self, rng, nres, nothers):
